@@ -33,6 +33,25 @@ def _fit(x, w):
     return x
 
 
+import contextlib
+
+
+@contextlib.contextmanager
+def preserved_domains(frag):
+    snap = []
+
+    def walk(fr):
+        snap.append((fr, dict(fr.domains)))
+        for sub in fr.subfragments:
+            walk(sub[0])
+    walk(frag)
+    try:
+        yield
+    finally:
+        for fr, doms in snap:
+            fr.domains.clear(); fr.domains.update(doms)
+
+
 class StateVar:
     """A state-holding element: flip-flop, sync read port register, or memory."""
     __slots__ = ("kind", "cell", "idx", "var", "init", "width", "depth", "aw")
@@ -59,7 +78,11 @@ class Netlist:
             if isinstance(s, Signal) and id(s) not in seen:
                 seen.add(id(s)); allports.append(s)
         self.ports = allports
-        self.design = frag.prepare(ports=allports, hierarchy=("top",))
+        # Fragment.prepare() propagates clock domains through the hierarchy *in place*; snapshot and restore the
+        # per-fragment domain tables so that the very same elaboration result can afterwards be handed to
+        # amaranth.sim (co-simulation, replay) without elaborating the component a second time.
+        with preserved_domains(frag):
+            self.design = frag.prepare(ports=allports, hierarchy=("top",))
         self.nl = build_netlist(self.design, all_undef_to_ff=False)
         self.cells = self.nl.cells
         self.top = self.cells[0]
